@@ -18,7 +18,11 @@ class MessageHead(packet.Packet):
         formats.remove_padding(self)
 
         if not self.payload:
-            raise formats.VerifyError('Message without payload')
+            msgcls = self.guess_payload_class(b'')
+            if msgcls.fields_desc:
+                raise formats.VerifyError('Message without payload')
+            # a message type with no fields is complete with its header alone
+            self.add_payload(msgcls())
         if isinstance(self.payload, packet.Raw):
             raise formats.VerifyError('Message with improper payload')
 
